@@ -321,6 +321,16 @@ func runTxtar(tier string, seed int64, model string, replay string) *corr.Result
 		for _, s := range []string{"-- --", "-- a --\r", "-- x --", "a\n-- x --", "-- --\n", "x\n-- --", "-- a --\r\n", "-- a --\r\r\n", "--  --\n", "--   --\n"} {
 			add([]byte(s))
 		}
+		// long lines around buffer-size boundaries (4 KiB, 64 KiB: bufio defaults and limits), before / after / as part of marker lines
+		for _, n := range []int{4095, 4096, 4097, 65535, 65536, 65537, 70000} {
+			long := bytes.Repeat([]byte("x"), n)
+			for _, tail := range []string{"\n-- a --\nbody\n", "\n-- a --", "\r\n-- a --\r\n", "\n", ""} {
+				add(append(append([]byte{}, long...), tail...))
+				add(append(append([]byte("-- f --\n"), long...), tail...))
+			}
+			add(append(append([]byte("-- "), long...), " --\ndata\n"...))
+			add(append(append(append([]byte("-- a --\n"), long...), "\n-- "...), append(long, " --\n"...)...))
+		}
 		l6, l10 := 7, 5
 		nrand := 20000
 		if tier == "thorough" {
